@@ -9,6 +9,9 @@ func init() {
 		{Name: "heapshape", Pkg: "internal/eheap", Files: []string{"internal_eheap/c25_eheap.go"}, Entry: "VerifC25HeapShape",
 			Assumptions: []string{"single-threaded use"},
 			Outside:     []string{"heaps of more than `items` entries; more than one removal before draining"}},
+		{Name: "heapshape-small", Pkg: "internal/eheap", Files: []string{"internal_eheap/c25_eheap.go"}, Entry: "VerifC25HeapShapeSmall",
+			Assumptions: []string{"single-threaded use"},
+			Outside:     []string{"expiries outside {0,1,2,3}; heaps of more than `items` entries; more than one removal before draining"}},
 		{Name: "emap", Pkg: "internal/emap", Files: []string{"internal_emap/c25_emap.go"}, Entry: "VerifC25EMap",
 			Reach:       []string{"add-duplicate", "expired"},
 			Stubs:       []string{"set.Bits (a math/big bit set) is executed on concrete big integers"},
